@@ -9,27 +9,39 @@
 (* Arithmetic is over exact integers: a percentage is floor(p*size/100).   *)
 (***************************************************************************)
 EXTENDS Integers, Sequences, FiniteSets, SequencesExt, FiniteSetsExt, TLC
-CONSTANT Dev
+CONSTANT
+  \* @type: Set(Str);
+  Dev
 
+\* @type: (Seq(Int)) => Int;
 SumSeq(s) == FoldLeft(LAMBDA a, b : a + b, 0, s)
-MaxOf(s) == CHOOSE m \in {s[i] : i \in 1..Len(s)} : \A j \in 1..Len(s) : s[j] <= m
-FirstMax(s) == CHOOSE i \in 1..Len(s) : s[i] = MaxOf(s) /\ \A j \in 1..(i - 1) : s[j] < MaxOf(s)
+\* @type: (Seq(Int)) => Int;
+MaxOf(s) == CHOOSE m \in {s[i] : i \in DOMAIN s} : \A j \in DOMAIN s : s[j] <= m
+\* @type: (Seq(Int)) => Int;
+FirstMax(s) == CHOOSE i \in DOMAIN s : s[i] = MaxOf(s) /\ \A j \in DOMAIN s : j < i => s[j] < MaxOf(s)
 
 \* parser state
+\* @type: {parts: Seq(Int), rest: Int, rejected: Bool};
 P0 == [parts |-> <<>>, rest |-> 0, rejected |-> FALSE]
+\* @type: ({parts: Seq(Int), rest: Int, rejected: Bool}) => {parts: Seq(Int), rest: Int, rejected: Bool};
 Reject(st) == [st EXCEPT !.rejected = TRUE]
 NegOK == "split_negative_accepted" \in Dev
+\* @type: ({parts: Seq(Int), rest: Int, rejected: Bool}, Int, Int) => {parts: Seq(Int), rest: Int, rejected: Bool};
 PartPercent(st, p, size) == IF p < 0 /\ ~NegOK THEN Reject(st)
                             ELSE [st EXCEPT !.parts = Append(@, (p * size) \div 100)]
+\* @type: ({parts: Seq(Int), rest: Int, rejected: Bool}, Int) => {parts: Seq(Int), rest: Int, rejected: Bool};
 PartAbsolute(st, n)      == IF n < 0 /\ ~NegOK THEN Reject(st) ELSE [st EXCEPT !.parts = Append(@, n)]
+\* @type: ({parts: Seq(Int), rest: Int, rejected: Bool}) => {parts: Seq(Int), rest: Int, rejected: Bool};
 PartRest(st) == IF st.rest # 0 THEN Reject(st)
                 ELSE [st EXCEPT !.parts = Append(@, 0), !.rest = Len(st.parts) + 1]
+\* @type: ({parts: Seq(Int), rest: Int, rejected: Bool}, {k: Str, n: Int}, Int) => {parts: Seq(Int), rest: Int, rejected: Bool};
 PartStep(st, pt, size) ==
   IF st.rejected THEN st
   ELSE CASE pt.k = "pct" -> PartPercent(st, pt.n, size)
          [] pt.k = "abs" -> PartAbsolute(st, pt.n)
          [] pt.k = "rest" -> PartRest(st)
          [] OTHER -> Reject(st)
+\* @type: ({parts: Seq(Int), rest: Int, rejected: Bool}, Int) => {parts: Seq(Int), rest: Int, rejected: Bool};
 Finalize(st, size) ==
   IF st.rejected \/ st.parts = <<>> THEN Reject(st)
   ELSE LET s == SumSeq(st.parts) IN
@@ -37,18 +49,24 @@ Finalize(st, size) ==
        ELSE IF s = size THEN st
        ELSE IF st.rest # 0 THEN [st EXCEPT !.parts[st.rest] = size - s]
        ELSE [st EXCEPT !.parts[FirstMax(st.parts)] = @ + (size - s)]
+\* @type: (Seq({k: Str, n: Int}), Int) => {parts: Seq(Int), rest: Int, rejected: Bool};
 SplitParse(spec, size) == Finalize(FoldLeft(LAMBDA st, pt : PartStep(st, pt, size), P0, spec), size)
 
 \* ---- C17 clauses on an implementation result: res \in {"ok","exc"}, parts ----
+\* @type: (Seq({k: Str, n: Int})) => Bool;
 Malformed(spec) ==
   \/ spec = <<>>
-  \/ \E i \in 1..Len(spec) : spec[i].k = "bad" \/ (spec[i].k \in {"pct", "abs"} /\ spec[i].n < 0)
-  \/ Cardinality({i \in 1..Len(spec) : spec[i].k = "rest"}) > 1
-Demand(spec, size) == SumSeq([i \in 1..Len(spec) |->
-                        IF spec[i].k = "abs" THEN spec[i].n
-                        ELSE IF spec[i].k = "pct" THEN (spec[i].n * size) \div 100 ELSE 0])
+  \/ \E i \in DOMAIN spec : spec[i].k = "bad" \/ (spec[i].k \in {"pct", "abs"} /\ spec[i].n < 0)
+  \/ Cardinality({i \in DOMAIN spec : spec[i].k = "rest"}) > 1
+\* @type: ({k: Str, n: Int}, Int) => Int;
+BaseOf(pt, size) == IF pt.k = "abs" THEN pt.n ELSE IF pt.k = "pct" THEN (pt.n * size) \div 100 ELSE 0
+\* @type: (Seq({k: Str, n: Int}), Int) => Int;
+Demand(spec, size) == FoldLeft(LAMBDA a, pt : a + BaseOf(pt, size), 0, spec)
+\* @type: (Seq({k: Str, n: Int}), Int) => Bool;
 MustReject(spec, size) == Malformed(spec) \/ Demand(spec, size) > size
+\* @type: (Str, Bool) => Set(Str);
 F(name, ok) == IF ok THEN {} ELSE {name}
+\* @type: (Seq({k: Str, n: Int}), Int, Str, Seq(Int)) => Set(Str);
 C17arith(spec, size, res, parts) ==
   IF MustReject(spec, size) THEN F("C17.rejects", res = "exc")
   ELSE IF res # "ok" THEN {"C17.accepts"}
